@@ -394,7 +394,16 @@ func VerifC13BalloonsReconfigure() {
 // allocator holds an assignment: the memory nodes told to the runtime equal
 // MemsetString(AssignedZone(id)), are non-empty and name existing nodes.
 func VerifC04BalloonsMem() {
-	w, err := verifNewPolicy(verifConfig())
+	cfg, machine := verifConfig()
+	if k := verifParam("memoryTypesChoice", 1); k == 2 || (k == 1 && verifChoice("memoryTypes", 2) == 1) {
+		// balloon types with a memory type preference: re-pinning goes through
+		// Realloc with a type mask
+		for _, d := range cfg.BalloonDefs {
+			d.MemoryTypes = []string{"DRAM"}
+		}
+		verifCover("memory-types-configured")
+	}
+	w, err := verifNewPolicy(cfg, machine)
 	if err != nil {
 		verifCover("config-rejected")
 		return
@@ -404,6 +413,14 @@ func VerifC04BalloonsMem() {
 	// judged under its own label, asserted at the end (an assertion that fails on
 	// every input of a path ends the path)
 	softFellBack := true
+	// fixed start of the history: containers of type a with a 40 GiB limit
+	for k := 0; k < verifParam("prefix", 0); k++ {
+		c := w.newContainerOf(4, 500)
+		c.memLimit = 40 * verifGiB
+		if err := w.p.AllocateResources(c); err == nil {
+			w.member[len(w.ctrs)-1] = true
+		}
+	}
 	ops := verifParam("ops", 2)
 	for k := 0; k < ops; k++ {
 		if len(w.ctrs) > 0 && verifParam("releases", 1) != 0 && verifChoice("op", 2) == 1 {
